@@ -37,6 +37,33 @@ Proof.
   rewrite app2_map. reflexivity.
 Qed.
 
+(* the same, without naming the continuations: [cont p r] is p's continuation applied to r *)
+Definition cont {A} (p : prog A) (r : resp) : prog A :=
+  match p with Op _ k => k r | Ret a => Ret a end.
+Lemma run_all_step {A X} (p : X -> prog A) (c : X -> call) (rf : X -> resp) (xs : list X) :
+  xs <> [] -> (forall x, In x xs -> head (p x) = Some (c x)) ->
+  respond (map c xs) = Some (map rf xs) ->
+  run_all respond (map p xs) = run_all respond (map (fun x => cont (p x) (rf x)) xs).
+Proof.
+  intros Hne Hh Hr.
+  rewrite (map_ext_in p (fun x => Op (c x) (cont (p x)))).
+  - apply (run_all_op c (fun x => cont (p x)) rf xs Hne Hr).
+  - intros x Hx. specialize (Hh x Hx). destruct (p x) as [a|c' k]; cbn in Hh; [discriminate|].
+    inversion Hh; subst. reflexivity.
+Qed.
+Lemma run_all_step_none {A X} (p : X -> prog A) (c : X -> call) (xs : list X) :
+  xs <> [] -> (forall x, In x xs -> head (p x) = Some (c x)) ->
+  respond (map c xs) = None -> run_all respond (map p xs) = None.
+Proof.
+  intros Hne Hh Hr.
+  rewrite (map_ext_in p (fun x => Op (c x) (cont (p x)))).
+  - destruct xs as [|x xs]; [congruence|]. cbn [map run_all run].
+    rewrite all_op_map, map_map. cbn [map] in Hr.
+    rewrite (map_ext (fun x0 => fst (c x0, cont (p x0))) c) by reflexivity. rewrite Hr. reflexivity.
+  - intros x Hx. specialize (Hh x Hx). destruct (p x) as [a|c' k]; cbn in Hh; [discriminate|].
+    inversion Hh; subst. reflexivity.
+Qed.
+
 Lemma run_all_op_none {A X} (c : X -> call) (k : X -> resp -> prog A) (xs : list X) :
   xs <> [] -> respond (map c xs) = None ->
   run_all respond (map (fun x => Op (c x) (k x)) xs) = None.
@@ -154,6 +181,9 @@ Arguments all_op_map {call resp A X}.
 Arguments all_ret_map {call resp A X}.
 Arguments run_all_op {call resp} respond {A X}.
 Arguments run_all_op_none {call resp} respond {A X}.
+Arguments cont {call resp A}.
+Arguments run_all_step {call resp} respond {A X}.
+Arguments run_all_step_none {call resp} respond {A X}.
 Arguments run_all_ret {call resp} respond {A X}.
 Arguments bind2 {call resp A B}.
 Arguments run_bind {call resp} respond {A B}.
